@@ -19,7 +19,28 @@ func rewriteCmd(args []string) int {
 	fs := flag.NewFlagSet("rewrite", flag.ExitOnError)
 	outdir := fs.String("outdir", "/verif/build/rw", "output directory")
 	repo := fs.String("repo", "/repo", "repository root")
+	typed := fs.Bool("typed", false, "typed mode: arguments are package patterns; map ranges are rewritten onto the order seam")
 	fs.Parse(args)
+	if *typed {
+		files, sst, tst, err := rewr.Typed(*repo, fs.Args())
+		if err != nil {
+			fmt.Fprintln(os.Stderr, "REWRITE-ERROR", err)
+			return 2
+		}
+		replace := map[string]string{}
+		for rel, text := range files {
+			dst := filepath.Join(*outdir, rel)
+			os.MkdirAll(filepath.Dir(dst), 0o755)
+			if err := os.WriteFile(dst, text, 0o644); err != nil {
+				fmt.Fprintln(os.Stderr, "REWRITE-ERROR", err)
+				return 2
+			}
+			replace[rel] = dst
+		}
+		b, _ := json.Marshal(map[string]any{"replace": replace, "stats": sst, "typed": tst})
+		fmt.Println(string(b))
+		return 0
+	}
 	replace := map[string]string{}
 	stats := map[string]rewr.Stats{}
 	var files []string
